@@ -85,6 +85,22 @@ def run(tier):
         if a:
             raise ToolError("binding self-test failed")
         v.add(binding_selftest="record with a wrong shard rejected")
+    # ---- connection level: a real Session's pool against a mock node with a shard-aware port, source ports confined to a range
+    import re as _re
+    eout = os.path.join(wd, "e2e.ndjson")
+    run_harness("vh-driver", ["c11", "e2e", eout], timeout=900)
+    erows = read_ndjson(eout)
+    if len(erows) < 40 or sum(len(x["accepts"]) for x in erows) < 60:
+        raise ToolError("c11 e2e: %d scenarios, %d shard-aware connections" % (len(erows), sum(len(x["accepts"]) for x in erows)))
+    acc, re_, rej = validate_trace("Trace_ShardPortE2E", "Trace_ShardPortE2E.cfg", eout, timeout=300)
+    if not acc:
+        raise ToolError("Trace_ShardPortE2E did not consume its input (line %s)" % rej)
+    for b in sorted({int(m.group(1)) - 1 for m in _re.finditer(r'<<"BAD", (\d+)>>', re_.out)})[:5]:
+        x = erows[b]
+        v.violation("connection level: %d shards, allowed source ports [%d, %d], ports held by others %s: the node's shard-aware port accepted (source port, shard) %s %s" % (
+            x["nr"], x["lo"], x["hi"], x["occupied"], x["accepts"], x["start_err"][:100]), [x])
+    v.add(e2e_scenarios=len(erows), e2e_shard_aware_connections=sum(len(x["accepts"]) for x in erows),
+          e2e_scenarios_with_taken_ports=sum(1 for x in erows if x["occupied"]))
     v.assumptions += ["the reference is the algorithm stated in the property (bias by 2^63, shift, multiply, high 64 bits), transcribed into limb arithmetic",
                       "source ports of real shard-aware connections (end-to-end half) belong to the mock-cluster checks"]
     return v.finish()
